@@ -51,6 +51,11 @@ CHECKS = {
          "Generated search over (28 option types x bases 2..36 x choice sets x value text) delivered through --opt=value, default tags and the environment, plus a complete enumeration of integer type x base x limit+-{0,1} every run and (thorough) a 60 s coverage-guided fuzz campaign over (type, base, bytes). Accept/reject and the stored value are compared with an own digit scanner over math/big and with strconv.ParseFloat/time.ParseDuration at the declared width; rejections must be ErrMarshal/ErrInvalidChoice naming the option and listing every choice.",
          "trusts strconv.ParseFloat, time.ParseDuration, math/big; forms on which Go's conventions and the documentation differ ('+' or '-0' on unsigned) are don't-care: only 'if accepted then denoted value' is checked",
          "DESIGN.md §4 C11"),
+ "C14": ("exploration",
+         "property-based testing (rapid): metamorphic noise-invariance of valid INI files and single-fault line-number oracle; native coverage-guided fuzzing of raw bytes for totality",
+         "Generated search over valid INI files (entries resolved and accepted by the reference semantics) with noise inserted (blank lines, both comment styles, 70 kB comment lines, blanks around names/=/values/headers, CRLF): the option fields after the noisy file must equal those after the clean file; with exactly one faulty line at a random position the error must be an *IniError carrying that line's 1-based number (ErrUnknownGroup for a section), and under IgnoreUnknown unknown keys/sections are skipped while everything else is applied. Thorough adds a 90 s 16-core fuzz campaign over arbitrary bytes (no panic, error type *IniError or *flags.Error).",
+         "validity of the generated clean file is decided by the reference INI resolution (harness/props/iniref.go); faults are constructed so that exactly one line is wrong; arbitrarily long lines are exercised up to ~70 kB",
+         "DESIGN.md §4 C14"),
  "C17": ("exploration",
          "property-based testing (rapid): structural layout predicates over help rendered at generated terminal widths through a real pseudo-terminal",
          "Generated search over names in five scripts, descriptions with long words/newlines/blank paragraphs, nesting and terminal widths 1..400 (real pty on fd 0); the rendered help must not panic, be valid UTF-8, start all descriptions in one column (characters), indent continuation lines to it, conserve the words in order, and respect the width when >= 10 columns remain.",
